@@ -20,6 +20,9 @@ def queries(tier):
           cs.misc('discrete_enforce', tier, bound='every int')]
     for w, nm in ((0, 'uniform'), (1, 'near'), (2, 'gaussian')):
         qs.append(cs.misc('discrete_sampler', tier, name='discrete_sampler[%s]' % nm, defines={'WHICH': w}, bound='symbolic bounds, every draw', backends=('cadical', 'kissat')))
+    qs.append(cs.compound('bounds', tier, bound='3 stub components'))
+    for m, nm in ((1, 'uniform'), (2, 'near'), (3, 'gaussian')):
+        qs.append(cs.compound('sampler', tier, name='compound_sampler[%s]' % nm, defines={'MODE': m}, bound='3 stub component samplers, symbolic weights incl. zeros'))
     names = ['uniform', 'gaussian', 'obstacle_based', 'bridge_test', 'min_clearance', 'max_clearance']
     tus = ['src/ompl/base/src/SpaceInformation.cpp'] + ['src/ompl/base/samplers/src/%s.cpp' % n for n in ('UniformValidStateSampler', 'GaussianValidStateSampler', 'ObstacleBasedValidStateSampler',
                                                                'BridgeTestValidStateSampler', 'MinimumClearanceValidStateSampler', 'MaximizeClearanceValidStateSampler')]
